@@ -64,7 +64,7 @@ def main():
         "notes": "All 20 properties are claimed at level proof: theorems about executable Coq models (coq/Model, coq/Spec), "
                  "reflective obligations on tables regenerated from /repo on every run (coq/Gen), and a correspondence + oracle "
                  "search per property (DESIGN.md section 14 is the as-built description; C12 and C13 are claimed partial, see their "
-                 "texts). /repo carries 101 unguarded fix: commits (repairs of genuine defects found by these checks; "
+                 "texts). /repo carries 102 unguarded fix: commits (repairs of genuine defects found by these checks; "
                  "known_findings.json status=fixed) and is frozen at 1eab23e; open known findings are printed as KNOWN-FINDING "
                  "lines while their committed replays still fail. No source hooks exist. Independent seeded changes and the "
                  "verdict of each check on them are in /verif/seeded/<id>/ (harness/seedtest.py confirm|run). "
